@@ -10,7 +10,7 @@ if [ ! -d "$wt" ]; then
   git -C "$wt" apply "/verif/seeded/$name/patch.diff" || exit 2
 fi
 mkdir -p "/tmp/mutev/$name"
-cd /verif
+cd "${VROOT:-/verif}"
 VKOPF_REPO="$wt" VKOPF_EVIDENCE_DIR="/tmp/mutev/$name" ./vcheck run "$prop" --tier "$tier" "$@" > "/tmp/mutev/$name/$prop.$tier.log" 2>&1
 rc=$?
 echo "$name $prop $tier exit=$rc $(grep -c '^VIOLATION' /tmp/mutev/$name/$prop.$tier.log) violations; $(grep '^\[' /tmp/mutev/$name/$prop.$tier.log | tail -1)"
